@@ -128,12 +128,25 @@ def index_objects(name, n):
         return perm.copy(), perm
     if name == "perm_list":
         return [int(i) for i in perm], perm
+    if name == "perm_Array":
+        return osyris.Array(perm.copy()), perm
+    if name == "perm_argsort_of_Array_with_unit":
+        # what np.argsort returns for a member of another group on the same rows: an integer Array that carries the unit of the
+        # data that was sorted; as an index it is a list of row numbers like any other
+        keys = np.empty(n, dtype=np.float64)
+        keys[perm] = np.arange(n, dtype=np.float64) * 1.5 + 0.25
+        order = np.argsort(osyris.Array(keys, unit="g"))
+        if not np.array_equal(np.asarray(getattr(order, "values", order)), perm):
+            raise AssertionError("harness: argsort of the keys is not the permutation")
+        return order, perm
+    if name == "ints_Array_with_unit":
+        return osyris.Array(rep.copy(), unit="cm"), rep
     raise KeyError(name)
 
 
 INDEX_OPS = [
     "int0", "int-1", "int_oob", "slice1:", "slice::2", "slice::-1", "slice1:3",
-    "mask_nd", "mask_Array", "ints_nd", "ints_Array", "ints_i4_Array", "perm_nd", "ints_neg_nd", "ints_neg_Array", "perm_from_end_nd",
+    "mask_nd", "mask_Array", "ints_nd", "ints_Array", "ints_i4_Array", "ints_Array_with_unit", "perm_argsort_of_Array_with_unit", "perm_nd", "ints_neg_nd", "ints_neg_Array", "perm_from_end_nd",
 ]
 
 
@@ -152,6 +165,8 @@ class Spec:
         ops.append(["sortby_perm", "perm_list"])
         ops.append(["sortby_perm", "perm_nd"])
         ops.append(["sortby_perm", "perm_from_end_nd"])
+        ops.append(["sortby_perm", "perm_Array"])
+        ops.append(["sortby_perm", "perm_argsort_of_Array_with_unit"])
         ops.append(["del", "a"])
         ops.append(["del", "b"])
         ops.append(["pop", "c"])
